@@ -2,7 +2,7 @@
 Every rule x every existing child sequence over the rule's names up to a length bound (plus sampled longer
 valid words with one child removed) x every candidate name (rule names + a foreign one)."""
 import itertools
-import impl, gen, lang
+import impl, gen, lang, synth
 from metapype.model.node import Node
 from metapype.eml import rule as rulemod
 from metapype.eml.exceptions import ChildNotAllowedError
@@ -107,9 +107,45 @@ def run(ctx):
         for (case, got), m in zip(metas, outs):
             if m["index"] != got:
                 diffs.append({"case": case, "impl": got, "model": m["index"]})
+    # synthetic rules of the class wfTop under a reused rule name: the theorems are about the class, not the shipped table
+    sreqs, smetas = [], []
+    quick = ctx.tier == "quick"
+    for i in range(40 if quick else 500):
+        sj = synth.gen_spec(ctx.rng)
+        s = lang.parse(sj)
+        flat = lang.names(s)
+        cands = list(dict.fromkeys(flat)) + [FOREIGN]
+        with synth.installed(sj, synth.SYNTH):
+            for xs in synth.sequences(s, ctx.rng, True):
+                if FOREIGN in xs or len(xs) > 12:
+                    continue
+                got = [synth.suggest(synth.SYNTH, xs, c) for c in cands]
+                n += len(cands)
+                sreqs.append({"op": "synth", "spec": sj, "mixed": False, "name": "zzSynthNode", "kids": xs, "cands": cands})
+                smetas.append((sj, xs, cands, got))
+                for c, (idx, allowed) in zip(cands, got):
+                    case = {"synthetic_spec": sj, "kids": xs, "child": c}
+                    if (c in flat) != (allowed is True):
+                        fails.append({"case": case, "what": f"synthetic rule {sj}: is_allowed_child({c!r}) = {allowed}"}); continue
+                    if c not in flat:
+                        if idx != "ChildNotAllowedError":
+                            fails.append({"case": case, "what": f"synthetic rule {sj}: name {c!r} is not allowed but child_insert_index returned {idx!r}"})
+                        continue
+                    valid_pos = [j for j in range(len(xs) + 1) if lang.in_lang(s, xs[:j] + [c] + xs[j:], True, False)]
+                    if valid_pos:
+                        restorable += 1
+                        if idx not in valid_pos:
+                            fails.append({"case": case, "what": f"synthetic rule {sj}: inserting {c!r} into {xs} can restore validity at {valid_pos} but the suggested index is {idx!r}"})
+                    elif not (isinstance(idx, int) and 0 <= idx <= len(xs)):
+                        fails.append({"case": case, "what": f"synthetic rule {sj}: allowed child {c!r} into {xs}: child_insert_index gave {idx!r}"})
+    if ctx.driver and sreqs:
+        for (sj, xs, cands, got), m in zip(smetas, ctx.driver.batch(sreqs)):
+            for c, (idx, allowed), mm in zip(cands, got, m["insert"]):
+                if mm["index"] != idx or mm["allowed"] != allowed:
+                    diffs.append({"case": {"synthetic_spec": sj, "kids": xs, "child": c}, "impl": [idx, allowed], "model": mm})
     return {"evaluations": n, "distinct_nontrivial": restorable,
             "rule": "per rule: all child sequences over the rule's names up to length 3/2/1 (quick) or 4/3/2 (thorough) by alphabet size plus sampled valid words with one child removed, "
-                    "x every candidate (rule names + foreign); non-trivial = cases where at least one insertion position yields a valid sequence (counted); all distinct",
+                    "x every candidate (rule names + foreign); the same on 40 (quick) / 500 (thorough) random specs of the class wfTop installed in the live rule table under one reused rule name; non-trivial = cases where at least one insertion position yields a valid sequence (counted); all distinct",
             "samples": samples, "corr_diffs": diffs, "oracle_fails": fails, "distribution": {"restorable_cases": restorable}}
 
 
@@ -117,6 +153,12 @@ def replay(payload, drv):
     c = payload.get("case") or {}
     if "kids" not in c:
         return {"case": c}
+    if "synthetic_spec" in c:
+        sj = c["synthetic_spec"]; s = lang.parse(sj)
+        with synth.installed(sj, synth.SYNTH):
+            got = synth.suggest(synth.SYNTH, c["kids"], c["child"])
+        return {"case": c, "suggested_and_allowed": got,
+                "valid_positions": [j for j in range(len(c["kids"]) + 1) if lang.in_lang(s, c["kids"][:j] + [c["child"]] + c["kids"][j:], True, False)]}
     ri = gen.RuleInfo()
     r = rulemod.Rule(c["rule"])
     s = ri.spec[c["rule"]]
